@@ -40,7 +40,7 @@ def run(ctx):
     plan = PLANS[ctx.tier]
     viol, div, projs, features, payload_errors = {}, {}, {}, set(), {}
     total = dict(n=0, unparsed=0, fix_checked=0, model_c17_false=0)
-    classes, consts, seeds, actions = {}, {}, [], {}
+    classes, consts, seeds, actions, all_samples = {}, {}, [], {}, []
     for tag, base, kv in plan["mc"]:
         cfg = S.write_cfg(ctx, base, f"c17_{tag}.cfg", **kv)
         consts[tag] = S.constants_of(cfg)
@@ -59,10 +59,9 @@ def run(ctx):
             features.update(r["features"])
             S.merge_counts(actions, r["actions"])
             seeds.extend(r["mutation_seeds"])
-            for s in r["samples"]:
-                if len(ctx.samples) < 3:
-                    ctx.samples.append(s)
+            all_samples.extend(r["samples"])
         os.remove(res.out_path)
+    ctx.samples = sorted(all_samples, key=S.case_key)[:3]
     if total["unparsed"]:
         raise MachineryError(f"{total['unparsed']} emitted records could not be parsed")
     if total["n"] == 0:
